@@ -199,8 +199,9 @@ func (e *Eval) pkgMember(p *ssa.Package, name string) (Val, bool) {
 func (x *Engine) globalRef(g *ssa.Global) string {
 	n := "gref_" + mangle(shortPkg(g.Pkg.Pkg.Path())+"."+g.Name())
 	if !x.declared[n] {
-		x.decl(n, "Int")
-		x.decls = append(x.decls, fmt.Sprintf("(assert (< %s 0))", n))
+		x.declared[n] = true
+		x.nGlobals++
+		x.decls = append(x.decls, fmt.Sprintf("(define-fun %s () Int (- %d))", n, x.nGlobals*refStride))
 	}
 	return n
 }
@@ -373,7 +374,22 @@ func (e *Eval) sel(n *Node) Val {
 		}
 	}
 	v := e.eval(n.Args[0])
-	return e.x.selField(e.st, v, n.Name, e.fail)
+	r := e.x.selField(e.st, v, n.Name, e.fail)
+	e.heapWf(r)
+	return r
+}
+
+// heapWf: references read from the heap are allocated (global heap invariant); stated per read, outside binders.
+func (e *Eval) heapWf(r Val) {
+	if len(e.bound) > 0 || r.Typ == nil || strings.Contains(r.T, "dummy") {
+		return
+	}
+	switch r.Typ.Underlying().(type) {
+	case *types.Pointer, *types.Slice, *types.Map, *types.Interface:
+		if r.Addr != nil || strings.HasPrefix(r.T, "(select") {
+			e.x.assume(e.st, e.x.wf(r.Typ, r.T, e.st))
+		}
+	}
 }
 
 func (e *Eval) findPkg(name string) *ssa.Package {
@@ -410,7 +426,9 @@ func (e *Eval) index(n *Node) Val {
 		if _, ok := structOf(u.Elem()); ok {
 			return Val{T: x.elemRef(fmt.Sprintf("(s_base %s)", a.T), i.T), Typ: types.NewPointer(u.Elem())}
 		}
-		return Val{T: fmt.Sprintf("(select (select %s (s_base %s)) %s)", x.get(e.st, key), a.T, i.T), Typ: u.Elem()}
+		rv := Val{T: fmt.Sprintf("(select (select %s (s_base %s)) %s)", x.get(e.st, key), a.T, i.T), Typ: u.Elem()}
+		e.heapWf(rv)
+		return rv
 	case *types.Map:
 		return x.mapLookup(e.st, a, i)
 	case *types.Array:
@@ -532,6 +550,9 @@ func (e *Eval) call(n *Node) Val {
 			return Val{T: x.frameTerm(e.st, e.old, except), Sort: "Bool"}
 		case "allocated":
 			v := e.eval(args[0])
+			if v.Typ != nil {
+				return Val{T: x.wf(v.Typ, v.T, e.st), Sort: "Bool"}
+			}
 			return Val{T: fmt.Sprintf("(< %s %s)", v.T, x.get(e.st, "$alloc")), Sort: "Bool"}
 		case "has":
 			m, k := e.eval(args[0]), e.eval(args[1])
@@ -618,7 +639,7 @@ func (e *Eval) call(n *Node) Val {
 			bs := c.sortOf(body)
 			g := x.fresh("seq")
 			x.decl(g, "(Array Int "+bs+")")
-			x.emit(fmt.Sprintf("(assert (forall ((%s Int)) (! (= (select %s %s) %s) :pattern ((select %s %s)))))", bn, g, bn, body.T, g, bn))
+			x.emit(fmt.Sprintf("(assert (forall ((%s Int)) (= (select %s %s) %s)))", bn, g, bn, body.T))
 			return Val{T: g, Sort: "(Array Int " + bs + ")"}
 		}
 		if sf, ok := x.db.SFuncs[nm]; ok && sf.Rec {
